@@ -93,6 +93,20 @@ if prop == 'C10':
         if pre: m.value
         d['right'][key] = m; got = res(d['right'][key])
         if got != 'RESERR': viol.append({'doc': d.rebuild(), 'key': ['right', key], 'resolved_before_move': pre, 'what': 'a reference moved into a plain sibling set resolves to %s (taken from the rec set it came from); nothing binds the name there' % got})
+# ---- editing through references into inherit clauses and with environments (coverage probe: these branches were never executed):
+# `set x V` rewrites the binding at the end of the chain — the attribute of the inherited source, the with environment that
+# supplies the name (the innermost one), the let binding an alias chain ends in — and nothing else
+if prop == 'C11':
+    TEMPLATES = ['let s = { a = V; }; in let inherit (s) a; in { x = a; }', 'let a = V; in { inherit a; x = a; }', 'let s = { a = V; }; in rec { inherit (s) a; x = a; }',
+                 'with { a = V; }; { x = a; }', 'with { a = V; }; with { b = 1; }; { x = a; }', 'with { a = 1; }; with { a = V; }; { x = a; }', 'let e = { a = V; }; in with e; { x = a; }',
+                 'let s = { a = r; }; r = V; in let inherit (s) a; in { x = a; }', 'let a = V; in let b = a; in { x = b; }', 'let s = { a = V; b = 2; }; in let inherit (s) a b; in { x = a; y = b; }',
+                 '{ pkgs }: let s = { a = V; }; in let inherit (s) a; in { x = a; }', 'let s = { a = V; }; in let inherit (s) a; in mk { x = a; }']
+    for tpl in TEMPLATES:
+        for old, new in [('5', '9'), ('"o"', '"n"'), ('[ 1 ]', '{ k = 1; }')]:
+            src = tpl.replace('V', old); want = tpl.replace('V', new); count('reference-templates')
+            try: got = ' '.join(set_value(parse(src + '\n'), 'x', new).split())
+            except Exception as ex: got = 'EXC:' + type(ex).__name__
+            if got != want: viol.append({'doc': src, 'path': ['x'], 'what': 'set through a reference (inherit / with / alias chain) rewrote the wrong binding', 'got': got, 'expected': want})
 # ---- sequences of edits through references on ONE document object (third round of seeds): every step must have the effect
 # it has on a fresh parse of the text the previous step printed — the defining binding is looked up anew each time
 if prop == 'C11':
@@ -194,6 +208,32 @@ if prop == 'C10':
     for text, want in [('(x: x) 5\n', '5'), ('(x: y) 5\n', 'RESERR'), ('({ x }: x) 1\n', 'RESERR'), ('x { a = 1; }\n', 'NOSCOPE')]:
         got = call_value(text); count('applied-function/fixed')
         if got != want: viol.append({'doc': text, 'what': 'applied function: expected %s, resolution gives %s' % (want, got)})
+# ---- inherit and inherit (src) (coverage probe: the inherit branch of _resolve_identifier was never executed): an inherited name is
+# followed to its source — a let-bound attribute set, the enclosing scope — an inner let shadows it, a source without the
+# attribute or that is not a set is an error
+if prop == 'C10':
+    def ires(text):
+        try:
+            x = parse(text)['x']; v = x.value if isinstance(x, Identifier) else x
+            g = v.rebuild().strip() if hasattr(v, 'rebuild') else repr(v); return g
+        except ResolutionError: return 'RESERR'
+        except Exception as ex: return 'EXC:' + type(ex).__name__
+    for it in range(max(60, N // 3)):
+        names = R.sample(['a', 'b', 'c'], R.randint(1, 3)); src = {nm: R.randrange(10, 99) for nm in names}
+        asked = R.choice(['a', 'b', 'c']); inh = sorted(set(R.sample(['a', 'b', 'c'], R.randint(1, 2)) + ([asked] if R.random() < 0.8 else [])))
+        stext = '{ ' + ' '.join('%s = %d;' % kv for kv in src.items()) + ' }'
+        tpl = R.choice(['inner_let', 'same_let', 'shadow', 'rec', 'plain_inherit', 'via_ref', 'not_a_set', 'no_source'])
+        want = str(src[asked]) if asked in src and asked in inh else 'RESERR'
+        if tpl == 'inner_let': text = 'let s = %s; in let inherit (s) %s; in { x = %s; }' % (stext, ' '.join(inh), asked)
+        elif tpl == 'same_let': text = 'let s = %s; inherit (s) %s; in { x = %s; }' % (stext, ' '.join(inh), asked)
+        elif tpl == 'shadow': text = 'let s = %s; in let inherit (s) %s; in let %s = 7; in { x = %s; }' % (stext, ' '.join(inh), asked, asked); want = '7'
+        elif tpl == 'rec': text = 'let s = %s; in rec { inherit (s) %s; x = %s; }' % (stext, ' '.join(inh), asked)
+        elif tpl == 'plain_inherit': text = 'let %s = 5; in { inherit %s; x = %s; }' % (asked, asked, asked); want = '5'
+        elif tpl == 'via_ref': text = 'let r = 4; s = { %s = r; }; in let inherit (s) %s; in { x = %s; }' % (asked, asked, asked); want = '4'
+        elif tpl == 'not_a_set': text = 'let s = 5; in let inherit (s) %s; in { x = %s; }' % (asked, asked); want = 'RESERR'
+        else: text = 'let inherit (s) %s; in { x = %s; }' % (asked, asked); want = 'RESERR'
+        got = ires(text + '\n'); count('inherit/%s/%s' % (tpl, 'refuse' if want == 'RESERR' else 'value'))
+        if got != want: viol.append({'doc': text, 'path': ['x'], 'what': 'inherit: Nix gives %s, resolution gives %s' % (want, got)})
 # ---- stacked `with` environments and nothing else (fourth round of seeds): among withs the innermost one that has the name wins;
 # reached through the document-level item access, with an identifier or an attribute set as the body
 if prop == 'C10':
